@@ -19,6 +19,18 @@ def min_width(pattern: str) -> int:
     return parse(pattern).getwidth()[0]
 
 
+def max_width(pattern: str) -> int:
+    """Upper bound of the match length (MAXREPEAT-sized when a repeat is unbounded)."""
+    return int(parse(pattern).getwidth()[1])
+
+
+def group_max_width(pattern: str, group) -> int | None:
+    sub = group_sub(pattern, group)
+    if sub is None:
+        return None
+    return int(sub.getwidth()[1])
+
+
 def _digits_only(sub) -> bool:
     for op, av in sub:
         name = str(op)
